@@ -86,3 +86,67 @@ def run_under(tracer, thorough=False, limit=None):
         os.chdir(cwd)
         reset_manager()
     return traces, labels, skipped
+
+
+# ---------------------------------------------------------------- examples
+# The scripts shipped as quantarhei.wizard.examples are the usage the
+# documentation shows; each one runs in-process under the tracer (one trace
+# per script).  Several of them stop with an exception on this tree (removed
+# keyword arguments, missing data files): the recorded prefix is validated
+# all the same, and it exercises the error exits of the contexts.
+QUICK_EXAMPLES = ["ex_001", "ex_002", "ex_003", "ex_004", "ex_005", "ex_010",
+                  "ex_012", "ex_014", "ex_015", "ex_016", "ex_017", "ex_018",
+                  "ex_020", "ex_040", "ex_100", "ex_101", "ex_102", "ex_200",
+                  "ex_800"]
+THOROUGH_EXAMPLES = QUICK_EXAMPLES + ["ex_006", "ex_011", "ex_013_",
+                                      "ex_030", "ex_031", "ex_035", "ex_036",
+                                      "ex_300", "ex_850"]
+
+
+def run_examples_under(tracer, thorough=False):
+    """Returns (traces, labels, outcomes, skipped)."""
+    import glob
+    import runpy
+    import shutil
+    import tempfile
+    os.environ.setdefault("MPLBACKEND", "Agg")
+    exdir = os.path.join(REPO, "quantarhei", "wizard", "examples")
+    names = THOROUGH_EXAMPLES if thorough else QUICK_EXAMPLES
+    traces, labels, outcomes, skipped = [], [], [], 0
+    cwd = os.getcwd()
+    work = tempfile.mkdtemp(prefix="verif_ex_")
+    os.chdir(work)
+    try:
+        for nm in names:
+            found = sorted(glob.glob(os.path.join(exdir, nm + "*.py")))
+            if not found:
+                continue
+            path = found[0]
+            reset_manager()
+            tracer.take()
+            outcome = "ok"
+            with contextlib.redirect_stdout(io.StringIO()), \
+                    contextlib.redirect_stderr(io.StringIO()):
+                try:
+                    runpy.run_path(path, run_name="__main__")
+                except BaseException as e:
+                    outcome = type(e).__name__
+            over = getattr(tracer, "overflow", False)
+            ev = tracer.take()
+            try:
+                import matplotlib.pyplot as plt
+                plt.close("all")
+            except Exception:
+                pass
+            if over:
+                skipped += 1
+                continue
+            if ev:
+                traces.append(ev)
+                labels.append(os.path.basename(path))
+                outcomes.append(outcome)
+    finally:
+        os.chdir(cwd)
+        shutil.rmtree(work, ignore_errors=True)
+        reset_manager()
+    return traces, labels, outcomes, skipped
